@@ -89,6 +89,46 @@ def write_fixed_atom_dcd(path, T, n_atoms):
         fh.write(b"".join(out))
 
 
+def write_trr_blocks(path, xyz, box, has_v, has_f):
+    """a single-precision GROMACS TRR written by hand (mdtraj's writer stores positions only): every frame has the box, the
+    positions and, optionally, a velocity block and / or a force block, which a reader that is not asked for them skips"""
+    import struct
+    T, N, _ = xyz.shape
+    out = []
+    for i in range(T):
+        ver = b"GMX_trn_file"
+        h = struct.pack(">ii", 1993, len(ver) + 1) + struct.pack(">i", len(ver)) + ver
+        sizes = [0, 0, 36, 0, 0, 0, 0, 12 * N, 12 * N if has_v else 0, 12 * N if has_f else 0]
+        h += struct.pack(">10i", *sizes) + struct.pack(">iii", N, i, 0) + struct.pack(">ff", float(i), 0.0)
+        body = np.asarray(box[i], dtype=">f4").tobytes() + np.asarray(xyz[i], dtype=">f4").tobytes()
+        if has_v:
+            body += np.full((N, 3), 7.0 + i, dtype=">f4").tobytes()
+        if has_f:
+            body += np.full((N, 3), -3.0 - i, dtype=">f4").tobytes()
+        out.append(h + body)
+    with open(path, "wb") as fh:
+        fh.write(b"".join(out))
+
+
+TRR_BLOCKS = {"trrv.trr": (True, False), "trrf.trr": (False, True), "trrvf.trr": (True, True)}
+
+
+def make_big(T, n_atoms, fmt, d):
+    """a file of more than 1 MiB (many atoms): atom 0 identifies the frame as usual, the y coordinate identifies the atom,
+    everything else is float noise (so that xtc cannot compress it away)"""
+    p = os.path.join(d, "big_%d_%d.%s" % (T, n_atoms, fmt))
+    if not os.path.exists(p):
+        t = make_traj(T, n_atoms, True)
+        rng = np.random.RandomState(7)
+        noise = rng.uniform(0.0, 9.0, size=(T, n_atoms, 3)).astype(np.float32)
+        xyz = t.xyz.copy()
+        xyz[:, 1:, 0] = noise[:, 1:, 0]
+        xyz[:, 1:, 2] = noise[:, 1:, 2]
+        t.xyz = xyz
+        t.save(p)
+    return p
+
+
 def make_files(T, n_atoms, formats, d, tag="", cell=True):
     t = make_traj(T, n_atoms, cell)
     if not cell:
@@ -106,6 +146,9 @@ def make_files(T, n_atoms, formats, d, tag="", cell=True):
                 open(p, "wb").write(data)
             elif fmt == "dcdfix.dcd":
                 write_fixed_atom_dcd(p, T, n_atoms)
+            elif fmt in TRR_BLOCKS:
+                box = np.array([np.eye(3) * ((i + 2.0) if cell else 0.0) for i in range(T)], dtype=np.float32)
+                write_trr_blocks(p, t.xyz, box, *TRR_BLOCKS[fmt])
             elif fmt == "dcd0.dcd":
                 # a DCD whose header frame count (NSET) was never filled in: the reader derives the number
                 # of frames from the file size (supported by dcdplugin); the cursor contract is the same
@@ -148,7 +191,11 @@ def atom_ids(xyz, scale):
     xyz = np.asarray(xyz, dtype=float)
     if xyz.ndim != 3 or xyz.shape[0] == 0:
         return []
-    return [int(round(v / scale * 10.0 - 1.0)) for v in xyz[0, :, 1]]
+    ids = [int(round(v / scale * 10.0 - 1.0)) for v in xyz[0, :, 1]]
+    if len(ids) > 64:
+        # big files: report the first four atoms (what the caller expects for "all atoms"), -1 first if any atom is off
+        return ids[:4] if ids == list(range(len(ids))) else [-1] + ids[:3]
+    return ids
 
 
 def traj_obs(t):
@@ -163,7 +210,7 @@ def traj_obs(t):
             "top_atoms": [a.residue.resSeq - 1 for a in t.topology.atoms] if t.topology is not None else None}
 
 
-UNIT = {"xyznonl.xyz": 10.0, "dcdfix.dcd": 10.0, "dcd0.dcd": 10.0, "h5": 1.0, "xtc": 1.0, "trr": 1.0, "dcd": 10.0, "nc": 10.0, "mdcrd": 10.0, "xyz": 10.0,
+UNIT = {"trrv.trr": 1.0, "trrf.trr": 1.0, "trrvf.trr": 1.0, "xyznonl.xyz": 10.0, "dcdfix.dcd": 10.0, "dcd0.dcd": 10.0, "h5": 1.0, "xtc": 1.0, "trr": 1.0, "dcd": 10.0, "nc": 10.0, "mdcrd": 10.0, "xyz": 10.0,
         "lammpstrj": 10.0, "dtr": 10.0, "arc": 10.0, "gro": 1.0, "lh5": 1.0, "netcdf": 10.0}
 
 
@@ -250,6 +297,10 @@ def run_cursor(case, paths, n_atoms):
     nh = case.get("handles", 1)
     # one atom selection for all handles, or one per handle ("atom_indices_h")
     ais = case.get("atom_indices_h") or [case.get("atom_indices")] * nh
+    if case.get("big"):
+        # a file larger than 1 MiB, every handle of the case open on it at the same time
+        paths = dict(paths)
+        paths[fmt] = make_big(case["T"], case["big"], fmt, os.getcwd())
     chunk = case.get("chunk")
     hs = [open_file(fmt, paths[fmt], n_atoms, chunk) for _ in range(nh)]
     outs = []
